@@ -35,7 +35,7 @@ if not run:
     if run: run = re.sub(r"\s+(->|#).*$", "", run)
 rundir = wt
 if modmode and "--place" not in a:
-    rundir, run = modmode
+    rundir, run = modmode[0], (a[a.index("--run") + 1] if "--run" in a else modmode[1])
     place = None
 else:
     assert place and run, ("cannot find placement/run command", place, run)
